@@ -208,9 +208,8 @@ def run(an: Analysis, rep):
     for m in f.cls.methods.values():
         if m is f:
             continue
-        if any(isinstance(n, (ast.Yield, ast.YieldFrom)) for n in ast.walk(m.node)) or m.name.startswith("additional"):
-            if any(isinstance(n, ast.Attribute) and n.attr == mapattr for n in ast.walk(m.node)):
-                gen = m
+        if any(isinstance(n, (ast.Yield, ast.YieldFrom)) for n in ast.walk(m.node)):
+            gen = m
     if gen is None:
         raise AnalysisError(f"{f.cls.qual}: generator of never-met indices not found")
     s2 = gen.params[0]
